@@ -71,6 +71,18 @@ func init() {
 				fatal(err)
 			}
 			n++
+			if c.Kind == "doc" {
+				// a document: the same verdict (and the same error code) as its compact spelling, against the schema of the first token list
+				sch := gapSchema("{\"a\":1,\"b\":[true,@t],@k:\"s\"}")
+				want := guard(func() error { return sch.Validate(jdoc.New("d", c.Base)) })
+				got := guard(func() error { return sch.Validate(jdoc.New("d", c.Text)) })
+				evals++
+				if got.OK != want.OK || got.Code != want.Code || got.Kind != want.Kind {
+					mism++
+					w.Write(gapMismatch{c.Text, c.Base, fmt.Sprintf("document: %+v, its compact spelling: %+v", got, want)})
+				}
+				return
+			}
 			if c.Kind == "enum" {
 				vals := func(text string) (string, error) {
 					e := enum.New("@e", text)
